@@ -61,7 +61,7 @@ class _Linalg:
         assert mode == 'reduced' and B.ndim == 2
         r, c = B.shape
         k = min(r, c)
-        cplx = REAL_NP.iscomplexobj(B)
+        cplx = bool(REAL_NP.iscomplexobj(B) and REAL_NP.any(REAL_NP.imag(B)))   # value-based: the fake is a function of the entries only
         rng = _rng_for('qr', B)
         Q = _fake_matrix(rng, (r, k), cplx)
         Rm = _fake_matrix(rng, (k, c), cplx)
@@ -79,7 +79,7 @@ class _Linalg:
         assert not full_matrices and compute_uv and B.ndim == 2
         r, c = B.shape
         k = min(r, c)
-        cplx = REAL_NP.iscomplexobj(B)
+        cplx = bool(REAL_NP.iscomplexobj(B) and REAL_NP.any(REAL_NP.imag(B)))
         rng = _rng_for('svd', B)
         U = _fake_matrix(rng, (r, k), cplx)
         V = _fake_matrix(rng, (k, c), cplx)
